@@ -13,7 +13,7 @@ K = lambda name, file, fn: dict(name=name, target=("oxidize-pdf-core/src/" + fil
 
 PROPS = {
     "C01": dict(
-        verus=["tokenizer", "runlength", "gss", "xrefstream", "glyf", "guards", "predictor", "pngrows", "flatten", "bounded", "asciihex", "ascii85", "rotate", "pngunfilter", "cmaprange"],
+        verus=["tokenizer", "runlength", "gss", "xrefstream", "glyf", "guards", "predictor", "pngrows", "flatten", "bounded", "asciihex", "ascii85", "rotate", "pngunfilter", "cmaprange", "readlimited"],
         standins=["a85hex"],
         kani=[K("c01_hex_digit_value", "parser/filters.rs", "hex_digit_value"),
               K("c01_calculate_offset_9_bytes_no_panic", "text/cmap.rs", "calculate_offset")],
@@ -21,11 +21,11 @@ PROPS = {
         not_decided="the I/O shells (reader.rs, xref.rs parse/recovery, object_stream.rs, page_tree.rs), LZW dictionary growth, CCITT/JBIG2/DCT decoders, text extraction, allocation sizes, wall-clock bounds",
     ),
     "C03": dict(
-        verus=["xrefstream", "strings", "names"],
-        not_decided="byte offsets of classic xref entries ({:010} text), startxref, /Size, reference resolution, strict-parser acceptance (all in write_document's I/O sequence); names (see C30)",
+        verus=["xrefstream", "strings", "names", "mainwriter"],
+        not_decided="text of classic xref entries ({:010} formatting of the recorded offsets), startxref, /Size, reference resolution, strict-parser acceptance (write_document's I/O sequence); buffered (object-stream) objects; names (see C30)",
     ),
     "C09": dict(
-        verus=["strings", "incr", "names"],
+        verus=["strings", "incr", "names", "mainwriter"],
         standins=["fmt"],
         not_decided="integers/reals (number text), arrays/dictionaries nesting, object streams, names (C30), the ISO-reader lemma for EOL handling",
     ),
@@ -119,7 +119,7 @@ PROPS = {
         not_decided="LZW, CCITT, Flate (dependency), ASCIIHex/ASCII85 (iterator adapters; outside Verus), PNG/TIFF predictors pending",
     ),
     "C08": dict(
-        verus=["runlength", "bounded", "streamlimit", "asciihex", "ascii85"],
+        verus=["runlength", "bounded", "streamlimit", "asciihex", "ascii85", "readlimited"],
         standins=["a85hex"],
         not_decided="Flate/LZW bounded paths; ASCIIHex/ASCII85 limits; decode_stream_with_limit glue pending",
     ),
